@@ -1,7 +1,7 @@
 """Shared pieces of the `map` cluster (also used by `set`): atoms, validators,
 line protocol, dict operations, generators.
 
-Atoms on a case line:  i3 -> 3,  s3 -> '3'  (the Lean twin is `Py.Atom`).
+Atoms on a case line:  i3 -> 3,  s3 -> '3'  (the Lean twin is `Py.KAtom`).
 Only on '#' lines (implementation + oracle, never sent to the model):
   b0/b1 -> False/True, f2 -> 2.0, N -> None, U -> [] (unhashable),
   and in pair lists the malformed elements !3 (a 3-tuple) and !0 (a non-iterable).
@@ -90,7 +90,7 @@ def show_pairlist(ps):
 # ------------------------------------------------------------------ validators
 
 class Validator:
-    """Python twin of `Py.Atom.validator`; the ordinal is reset per operation.
+    """Python twin of `Py.KAtom.validator`; the ordinal is reset per operation.
     `pure(n, x)` is the validator as a function of (call ordinal, argument)."""
 
     def __init__(self, spec):
